@@ -1611,3 +1611,39 @@ Proof.
   apply negb_false_iff. apply existsb_exists. exists (chunk_start height). split; [exact Hin | apply Nat.eqb_refl].
 Qed.
 End OpenMissing.
+
+(* ------------------------------------------------------------------------------------------ *)
+(* close() and a restart without any crash                                                    *)
+(* ------------------------------------------------------------------------------------------ *)
+Section CloseReopen.
+Variable sha256 : bytes -> bytes.
+
+(* close writes exactly the chain in memory; reopening a chain that links (and starts with the genesis
+   block) loads exactly what was stored: same bytes, same length *)
+Theorem close_reopen_exact c s f hs :
+  io s = concat hs -> Forall (fun x : bytes => length x = HS) hs -> linked sha256 hs ->
+  (forall x, nth_error hs 0 = Some x -> repair_genesis_ok sha256 c x = true) ->
+  hclose s f = io s /\
+  load_repair sha256 c (hclose s f) = mkSt (io s) (length hs) [].
+Proof.
+  intros Hio Hlen L G. split; [reflexivity|]. unfold hclose. rewrite Hio.
+  pose proof (open_after_cut sha256 c hs (length (concat hs)) Hlen L G (le_n _)) as H.
+  rewrite firstn_all in H. rewrite H. f_equal.
+  rewrite (concat_length_HS hs Hlen), Nat.mul_comm. apply Nat.div_mul. unfold HS; lia.
+Qed.
+
+(* OLD close (before the fix): 'r+b' overwrite without truncation *)
+Definition hclose_old (s : st) (file : option bytes) : bytes :=
+  match file with None => io s | Some f => io s ++ skipn (length (io s)) f end.
+
+(* the witness of chain_invariant_new_witness continued: 3 headers on disk, a 1-header fork at height 1 leaves 2
+   in memory; the old close keeps the third on disk, the next open() loads 3 headers and the chain is broken *)
+Lemma close_old_refuted :
+  let old_file := wA0 ++ wA1 ++ wA2 in
+  let s := mkSt (wA0 ++ wB1) 2 [] in
+  let reloaded := load_repair toy w_cfg (hclose_old s (Some old_file)) in
+  (hsize reloaded, validate toy toy toy w_cfg None None (chunks 3 (io reloaded)),
+   hsize (load_repair toy w_cfg (hclose s (Some old_file))))
+  = (3, Some RPrev, 2).
+Proof. vm_compute. reflexivity. Qed.
+End CloseReopen.
